@@ -38,6 +38,15 @@ INTREE = {"name": "intree_swaps", "kind": "intree", "args": [], "module": "WpFn"
 
 
 COV = {"name": "MC_Whirlpool_cov", "module": "MC_Whirlpool", "cfg": "MC_Whirlpool_cov.cfg", "timeout": 600, "workers": 1}
+# vacuity guard of the fee side of the toy instance: fees are credited (across the accumulator's wrap-around), protocol fees accrue, both are paid out
+FEES_COV = {"name": "MC_Fees_cov", "module": "MC_Whirlpool", "cfg": "MC_Fees_cov.cfg", "timeout": 600, "workers": 1}
+# the toy instance with reset_position_range / reposition_liquidity_v2 added (module MC_Rerange), and its vacuity guard
+RERANGE_COV = {"name": "MC_Rerange_cov", "module": "MC_Rerange", "cfg": "MC_Rerange_cov.cfg", "timeout": 900, "workers": 1}
+
+
+def rerange(tier, ledger=False):
+    n = "MC_RerangeLedger" if ledger else "MC_Rerange"
+    return {"name": n, "module": "MC_Rerange", "cfg": f"{n}_q.cfg" if tier == "quick" else f"{n}.cfg", "timeout": 7200}
 
 
 def hist_plan(active, tier, seed, tokens=("spl",), must=None, explanation="", shards_q=6, shards_t=16, models=("MC_Whirlpool",)):
@@ -53,7 +62,9 @@ def hist_plan(active, tier, seed, tokens=("spl",), must=None, explanation="", sh
 def C01(tier, seed):
     p = hist_plan(["C01"], tier, seed, models=("MC_Whirlpool", "MC_Gain"), must={"swap": 50, "decrease_liquidity": 20, "collect_fees": 20, "collect_protocol_fees": 5},
                   explanation="Solvent + NoFreeLunch evaluated after every instruction of recorded random histories of the real program "
-                              "(incl. drain sequences whose every call must succeed); the same invariants model-checked on the toy instance")
+                              "(incl. drain sequences whose every call must succeed); the same invariants model-checked on the toy instance, "
+                              "also with the two re-ranging instructions added (MC_Rerange)")
+    p["models"] += [rerange(tier), FEES_COV, RERANGE_COV]
     return p
 
 
@@ -83,6 +94,7 @@ def _C05(tier, seed):
     p = hist_plan(["C05"], tier, seed, tokens=("spl", "t22"), must={"swap": 50, "increase_liquidity": 20, "decrease_liquidity": 20},
                   explanation="LiqSum/TickSums/TickInit on the projected state after every instruction; toy instance: same invariants; thorough tier: Apalache proves the "
                               "invariants inductive over the liquidity rules for unbounded integer magnitudes (LiqInd.tla: base case + inductive step)")
+    p["models"] += [rerange(tier), RERANGE_COV]
     if tier == "thorough":
         p["apalache"] = [{"name": "LiqInd", "file": "LiqInd", "inv": "IndInv", "init": "Init", "indinit": "IndInit", "cinit": "ConstInit", "timeout": 7200}]
     return p
@@ -128,11 +140,18 @@ def C09(tier, seed):
 
 
 def C07(tier, seed):
+    p = _C07(tier, seed)
+    p["models"] += [rerange(tier, ledger=True), FEES_COV, RERANGE_COV]
+    return p
+
+
+def _C07(tier, seed):
     return hist_plan(["C07"], tier, seed, tokens=("spl", "t22"), models=("MC_Ledger",),
                      must={"swap": 50, "update_fees_and_rewards": 5, "decrease_liquidity": 20, "increase_liquidity": 20},
                      explanation="ghost share ledgers: per swap step the exact pro-rata share (2^128-scaled interval) of every position whose range contains the segment tick; "
                                  "credited fees (increments of owed) never exceed the share and fall short by at most one unit per step/credit; accumulators start anywhere in u128; "
-                                 "toy instance: FeeUpper/FeeLower with accumulators started just below wrap-around")
+                                 "toy instance: FeeUpper/FeeLower with accumulators started just below wrap-around, also across reset_position_range / reposition_liquidity_v2 (MC_RerangeLedger); "
+                                 "a vacuity guard requires that fees are really credited and paid out in the toy instance")
 
 
 def C11(tier, seed):
@@ -340,6 +359,7 @@ def C06(tier, seed):
         p["drivers"].append({"name": f"twohop_{s_}", "args": ["twohop", "--seed", str(seed * 100 + 70 + s_), "--worlds", str(worlds), "--attempts", str(attempts)]})
     p["must_exercise"].update({"two_hop_swap": 10, "two_hop_swap_v2": 10})
     p["drivers"].append(dict(INTREE))    # fee formula / split / budget of every swap the repository's own tests execute
+    p["models"].append(FEES_COV)         # the toy instance's protocol share is really non-zero and really collected
     return p
 
 
@@ -356,6 +376,8 @@ def C20(tier, seed):
     for tk, extra in (("spl", []), ("t22fee", []), ("spl", ["--adaptive", "1"]), ("t22", ["--adaptive", "1"])):
         tag = tk + ("_af" if extra else "")
         drivers += hist_jobs(f"sdk_{tag}_", seed, 2 if q else 6, 4 if q else 40, 200 if q else 300, tk, ["--sdk", "1"] + extra)
+    # histories with reward emissions: the SDK's fee / reward quotes against what update_fees_and_rewards records (wider specification, W6)
+    drivers += hist_jobs("sdk_rw_", seed, 1 if q else 4, 4 if q else 40, 200 if q else 300, "spl", ["--sdk", "1", "--rewards", "1"])
     drivers += fn_jobs("sdkconv", tier, seed, 1500, 60000, shards_q=2, shards_t=8, extra=["--stride", "16" if q else "1"])
     return {"active": ["C20"], "drivers": drivers, "models": [], "exhaustive": False,
             "must_exercise": {"swap": 50, "swap_v2": 50},
